@@ -272,7 +272,7 @@ def run(c):
     traces, meta = plugin_faults(c, wd)
     validate(c, traces, meta, 'plugin-callback')
     lock_probe_leg(c, wd)
-    traces, meta = c03.run_scenarios(c, rng, wd, 40 if quick else 1000, 0.5, 'differential', 'd')
+    traces, meta = c03.run_scenarios(c, rng, wd, 40 if quick else 6000, 0.5, 'differential', 'd')
     c03.validate(c, traces, meta, lambda m: m['firings'] >= 3)
 
 
